@@ -23,7 +23,11 @@ func RacePass(acc *ev.Acc, prop, tier string) {
 	for _, procs := range []string{"1", "2", "16"} {
 		// the free-running pass only looks for data races; it has no say on deadlocks (the controlled
 		// exploration decides those), so a run that does not come back is cut off and recorded, not judged
-		ctx, cancel := context.WithTimeout(context.Background(), 5*time.Minute)
+		limit := 5 * time.Minute
+		if len(acc.Violations) > 0 {
+			limit = time.Minute // the controlled exploration already has something to report
+		}
+		ctx, cancel := context.WithTimeout(context.Background(), limit)
 		cmd := exec.CommandContext(ctx, bin, "-tier", tier)
 		cmd.Env = append(os.Environ(), "GOMAXPROCS="+procs, "GORACE=halt_on_error=0 exitcode=66")
 		var stderr strings.Builder
@@ -32,7 +36,7 @@ func RacePass(acc *ev.Acc, prop, tier string) {
 		timedOut := ctx.Err() != nil
 		cancel()
 		if timedOut {
-			acc.NotExhaustive("free-running race pass cut off after 5 min at GOMAXPROCS=" + procs + " (it blocked; deadlocks are decided by the controlled exploration)")
+			acc.NotExhaustive("free-running race pass cut off at GOMAXPROCS=" + procs + " (it blocked; deadlocks are decided by the controlled exploration)")
 			break
 		}
 		races := strings.Count(stderr.String(), "WARNING: DATA RACE")
